@@ -435,6 +435,23 @@ Definition lstep (s : lstate) (op : lop) : lstate :=
   end.
 Definition lrun (ops : list lop) : lstate := fold_left lstep ops (mk_lstate [] [] []).
 
+(* ---------------------------------------------------------------- histories of checkouts on one cache *)
+(* Several checkouts in one process on one cache directory, with objects collected from the cache
+   (gc) and user edits in between.  Every checkout evaluates in_cache against the cache AS IT IS AT
+   THAT CALL: hstep passes the current cache, nothing is remembered between calls (diff.py keeps its
+   memo _cache_check local to one diff() call). *)
+Inductive hop :=
+| HCheckout (g : cfg) (tgt : list (key * oid)) (order : list key)
+| HDrop (o : oid)                     (* the object is removed from the cache *)
+| HUser (w : ws).                     (* the user rewrites the workspace arbitrarily *)
+Definition hstep (H : bytes -> oid) (s : cache * ws) (op : hop) : cache * ws :=
+  match op with
+  | HCheckout g tgt order => let r := checkout H g (fst s) (snd s) tgt order in (r_cache r, r_ws r)
+  | HDrop o => (filter (fun oc => negb (list_N_eqb o (fst oc))) (fst s), snd s)
+  | HUser w => (fst s, w)
+  end.
+Definition hrun (H : bytes -> oid) (ops : list hop) (s : cache * ws) : cache * ws := fold_left (hstep H) ops s.
+
 (* ---------------------------------------------------------------- executable instance + encoders *)
 
 Definition H_tab (tab : list (bytes * oid)) (b : bytes) : oid :=
